@@ -45,6 +45,36 @@ func isHandleType(ty types.Type) bool {
 	return !objectLike[n.Obj().Pkg().Path()+"."+n.Obj().Name()]
 }
 
+// opaqueTypes: struct types of libraries BELOW the repository whose methods the module's code calls on a value it
+// embeds or holds (vec.Rasterizer wraps a vector.Rasterizer).  Such a value is an abstract object, like the object
+// behind an interface: a state of type `R_<type>` and one function per operation the translated code performs on it
+// (`<type>_ops`: the methods it calls, `set_F`/`get_F` for the exported fields it writes and reads).  Other abstract
+// objects handed to a method go in as their state and come back as their new state (the operation is polymorphic in
+// their types: it can do nothing with them but hand them back, which is all the translated code can tell).
+var opaqueTypes = map[string]bool{"golang.org/x/image/vector.Rasterizer": true}
+
+func opaqueOf(ty types.Type) (string, bool) {
+	n, ok := ty.(*types.Named)
+	if !ok || n.Obj().Pkg() == nil {
+		return "", false
+	}
+	if !opaqueTypes[n.Obj().Pkg().Path()+"."+n.Obj().Name()] {
+		return "", false
+	}
+	return pkgShort(n.Obj().Pkg()) + "_" + n.Obj().Name(), true
+}
+
+func (t *translator) opaqueOp(name, op, sig string) {
+	if t.opaqueOps[name] == nil {
+		t.opaqueOps[name] = map[string]string{}
+		t.oorder = append(t.oorder, name)
+	}
+	if old, ok := t.opaqueOps[name][op]; ok && old != sig {
+		fail("operation %s of %s used at two signatures", op, name)
+	}
+	t.opaqueOps[name][op] = sig
+}
+
 type unsupported struct{ why string }
 
 // pathPanics: the instruction being translated panics on this path (a call of the nil function)
@@ -55,18 +85,20 @@ func fail(format string, a ...interface{}) { panic(unsupported{fmt.Sprintf(forma
 // ---------- types ----------
 
 type translator struct {
-	specs   map[string]*fnInfo // specialised translations by key
-	ifaces  map[string]*types.Named // lean name -> named interface type
-	iorder  []string
-	cur     *fnInfo
-	gdefs   map[*types.Package]string
-	gcalls  map[*types.Package]map[*ssa.Function]bool
-	globals map[*ssa.Global]*node
-	gdone   map[*ssa.Package]bool
-	prog    *ssa.Program
-	structs map[string]*types.Struct // lean name -> struct
-	sorder  []string
-	funcs   map[*ssa.Function]*fnInfo
+	specs     map[string]*fnInfo      // specialised translations by key
+	ifaces    map[string]*types.Named // lean name -> named interface type
+	iorder    []string
+	cur       *fnInfo
+	gdefs     map[*types.Package]string
+	gcalls    map[*types.Package]map[*ssa.Function]bool
+	globals   map[*ssa.Global]*node
+	gdone     map[*ssa.Package]bool
+	prog      *ssa.Program
+	structs   map[string]*types.Struct // lean name -> struct
+	sorder    []string
+	funcs     map[*ssa.Function]*fnInfo
+	opaqueOps map[string]map[string]string // opaque library object type -> operation -> Lean type of the operation
+	oorder    []string
 }
 
 type ioPath struct {
@@ -77,28 +109,28 @@ type ioPath struct {
 }
 
 type fnInfo struct {
-	fn      *ssa.Function
-	name    string
-	err     string
-	done    bool
-	busy    bool
-	inputs  []ioPath // for pointer params: what is read (depth-1 fields or whole)
-	outputs []ioPath // for pointer params: what is written
-	body    string
-	retType string
-	params  string
-	calls   map[*ssa.Function]bool
-	callsFi map[*fnInfo]bool
-	written map[int]bool          // slice parameters whose elements the function stores into: the new list is an extra result
-	escapes map[int]bool          // slice parameters that are appended to, stored, returned or handed on to such a parameter
-	spec    map[int]*ssa.Function // function-typed parameters fixed to a function (nil = the nil function)
-	specKey string
-	gdeps   map[*types.Package]bool
-	ifaces  map[string]bool
+	fn          *ssa.Function
+	name        string
+	err         string
+	done        bool
+	busy        bool
+	inputs      []ioPath // for pointer params: what is read (depth-1 fields or whole)
+	outputs     []ioPath // for pointer params: what is written
+	body        string
+	retType     string
+	params      string
+	calls       map[*ssa.Function]bool
+	callsFi     map[*fnInfo]bool
+	written     map[int]bool          // slice parameters whose elements the function stores into: the new list is an extra result
+	escapes     map[int]bool          // slice parameters that are appended to, stored, returned or handed on to such a parameter
+	spec        map[int]*ssa.Function // function-typed parameters fixed to a function (nil = the nil function)
+	specKey     string
+	gdeps       map[*types.Package]bool
+	ifaces      map[string]bool
 	retConcrete map[int]types.Type // interface-typed results that always box one concrete type
-	needInh bool // mentions `default` at an abstract object type (a panic leaf, exhausted fuel): needs [Inhabited R]
-	fuel    bool // takes a fuel argument (has a loop or recursion, or calls something that does)
-	selfRec bool
+	needInh     bool               // mentions `default` at an abstract object type (a panic leaf, exhausted fuel): needs [Inhabited R]
+	fuel        bool               // takes a fuel argument (has a loop or recursion, or calls something that does)
+	selfRec     bool
 }
 
 func pkgShort(p *types.Package) string {
@@ -118,6 +150,16 @@ func pkgShort(p *types.Package) string {
 func (t *translator) leanType(ty types.Type) string {
 	switch u := ty.(type) {
 	case *types.Named:
+		if name, ok := opaqueOf(u); ok {
+			if t.opaqueOps[name] == nil {
+				t.opaqueOps[name] = map[string]string{}
+				t.oorder = append(t.oorder, name)
+			}
+			if t.cur != nil {
+				t.cur.ifaces[name] = true
+			}
+			return "R_" + name
+		}
 		if st, ok := u.Underlying().(*types.Struct); ok {
 			name := pkgShort(u.Obj().Pkg()) + "_" + u.Obj().Name()
 			if !firstOrder(u) {
@@ -335,10 +377,10 @@ func (n *node) clone() *node {
 
 type cell struct {
 	viewVal *viewInfo // a local slice variable holding a view (see viewInfo)
-	ptrVal *ptrv // a local variable of pointer type (e.g. a captured receiver): the pointer it holds
-	id    int
-	param int // >= 0: the pointee of pointer parameter #param; -1: local
-	root  *node
+	ptrVal  *ptrv     // a local variable of pointer type (e.g. a captured receiver): the pointer it holds
+	id      int
+	param   int // >= 0: the pointee of pointer parameter #param; -1: local
+	root    *node
 }
 
 type step struct {
@@ -364,25 +406,27 @@ type viewInfo struct {
 }
 
 type sym struct {
-	view  *viewInfo // see viewInfo; appending within the capacity writes into the array
-	elems []string  // a list literal's elements
-	emptyFuncs bool // a slice of function values known to be empty (variadic options not given)
-	binds     []sym // a closure's captured variables (pointers to their storage)
-	backLoc   loopLoc // for a backed slice: the array location and its generation when the slice was taken; the slice value
-	backGen   int     // is the list of the array's elements THEN, so it must not be used after the array was written
-	wcell     int // a slice parameter that is written: the cell holding the current list
-	backPtr   *ptrv  // the array a backed slice aliases …
-	backLo    string // … from this index on
-	backed    bool // a slice that aliases an array and may have spare capacity: appending to it would write into the array
-	fromParam int  // 1 + index of the slice parameter this slice value comes from (0: none)
-	fnNil     bool // the nil function value
-	boxed bool // a concrete value converted to an interface: may only be returned
-	iface bool
-	expr  string
-	ptr   *ptrv
-	comps []sym // tuple
-	fn    *ssa.Function
-	typ   types.Type
+	ofield     string // the address of field `ofield` of an opaque library object (see opaqueTypes) that lives at ptr
+	oname      string
+	view       *viewInfo // see viewInfo; appending within the capacity writes into the array
+	elems      []string  // a list literal's elements
+	emptyFuncs bool      // a slice of function values known to be empty (variadic options not given)
+	binds      []sym     // a closure's captured variables (pointers to their storage)
+	backLoc    loopLoc   // for a backed slice: the array location and its generation when the slice was taken; the slice value
+	backGen    int       // is the list of the array's elements THEN, so it must not be used after the array was written
+	wcell      int       // a slice parameter that is written: the cell holding the current list
+	backPtr    *ptrv     // the array a backed slice aliases …
+	backLo     string    // … from this index on
+	backed     bool      // a slice that aliases an array and may have spare capacity: appending to it would write into the array
+	fromParam  int       // 1 + index of the slice parameter this slice value comes from (0: none)
+	fnNil      bool      // the nil function value
+	boxed      bool      // a concrete value converted to an interface: may only be returned
+	iface      bool
+	expr       string
+	ptr        *ptrv
+	comps      []sym // tuple
+	fn         *ssa.Function
+	typ        types.Type
 }
 
 type loopLoc struct {
@@ -393,7 +437,7 @@ type loopLoc struct {
 type loopInfo struct {
 	sumWrt  *loopInfo                // the loop function returns `Ret ⊕ params(sumWrt)`: see loop()
 	body    map[*ssa.BasicBlock]bool // the natural loop of the header
-	ptypes  []string // Lean types of the loop function's parameters (phis, then memory)
+	ptypes  []string                 // Lean types of the loop function's parameters (phis, then memory)
 	name    string
 	id      int
 	header  *ssa.BasicBlock
@@ -406,9 +450,9 @@ type loopInfo struct {
 }
 
 type state struct {
-	env    map[ssa.Value]sym
-	cells  map[int]*cell
-	frozen map[loopLoc]int // arrays that slices alias: generation, incremented by every store into the array
+	env       map[ssa.Value]sym
+	cells     map[int]*cell
+	frozen    map[loopLoc]int // arrays that slices alias: generation, incremented by every store into the array
 	constCond map[*ssa.BinOp]string
 }
 
@@ -436,30 +480,30 @@ func (s *state) clone() *state {
 }
 
 type ctx struct {
-	t        *translator
-	info     *fnInfo
-	fn       *ssa.Function
-	out      strings.Builder
-	ncell    int
-	leaves   int
-	inputs   map[string]ioPath
-	outputs  map[string]ioPath
-	inInit   bool
-	prefix   string
-	loops    map[*ssa.BasicBlock]*loopInfo
-	lstack   []*loopInfo
-	loopSeq  int
-	rerun    bool
+	t           *translator
+	info        *fnInfo
+	fn          *ssa.Function
+	out         strings.Builder
+	ncell       int
+	leaves      int
+	inputs      map[string]ioPath
+	outputs     map[string]ioPath
+	inInit      bool
+	prefix      string
+	loops       map[*ssa.BasicBlock]*loopInfo
+	lstack      []*loopInfo
+	loopSeq     int
+	rerun       bool
 	forceCallee *ssa.Function
-	frames   []*inlineFrame
-	inlineSeq int
+	frames      []*inlineFrame
+	inlineSeq   int
 	usesDefault bool
 	retConcrete map[int]types.Type
-	fuelVar  string // the fuel variable in scope ("" when the function has not needed fuel yet)
-	usesFuel bool
-	pcell    map[int]int // param index -> cell id
-	fixedOut []ioPath    // outputs known from the previous pass
-	tmp      int
+	fuelVar     string // the fuel variable in scope ("" when the function has not needed fuel yet)
+	usesFuel    bool
+	pcell       map[int]int // param index -> cell id
+	fixedOut    []ioPath    // outputs known from the previous pass
+	tmp         int
 }
 
 func ind(d int) string { return strings.Repeat("  ", d) }
@@ -1170,6 +1214,14 @@ func (c *ctx) instr(s *state, in ssa.Instruction, d int) {
 			if cl == nil {
 				fail("load from consumed memory")
 			}
+			if p.ofield != "" {
+				if !firstOrder(x.Type()) {
+					fail("field of an opaque library object that is not a first-order value")
+				}
+				c.t.opaqueOp(p.oname, "get_"+p.ofield, "R → "+c.t.leanType(x.Type()))
+				bind(x, fmt.Sprintf("(I_%s.get_%s %s)", p.oname, p.ofield, c.load(&ptrv{cell: cl, path: p.ptr.path})))
+				return
+			}
 			if cl.viewVal != nil && len(p.ptr.path) == 0 {
 				s.env[x] = c.viewSym(s, cl.viewVal, x.Type())
 				return
@@ -1241,6 +1293,14 @@ func (c *ctx) instr(s *state, in ssa.Instruction, d int) {
 		if s.cells[p.ptr.cell.id] == nil {
 			fail("address into consumed memory")
 		}
+		if on, ok := opaqueOf(x.X.Type().Underlying().(*types.Pointer).Elem()); ok {
+			if p.ofield != "" || !st.Field(x.Field).Exported() {
+				fail("address inside an opaque library object")
+			}
+			c.t.leanType(x.X.Type().Underlying().(*types.Pointer).Elem())
+			s.env[x] = sym{ptr: &ptrv{cell: s.cells[p.ptr.cell.id], path: p.ptr.path}, ofield: st.Field(x.Field).Name(), oname: on, typ: x.Type()}
+			return
+		}
 		np := &ptrv{cell: s.cells[p.ptr.cell.id], path: append(append([]step{}, p.ptr.path...), step{field: x.Field, name: st.Field(x.Field).Name(), cidx: -1})}
 		s.env[x] = sym{ptr: np, typ: x.Type()}
 	case *ssa.IndexAddr:
@@ -1310,6 +1370,18 @@ func (c *ctx) instr(s *state, in ssa.Instruction, d int) {
 		pp := &ptrv{cell: s.cells[p.ptr.cell.id], path: p.ptr.path}
 		if pp.cell == nil {
 			fail("store into consumed memory")
+		}
+		if p.ofield != "" {
+			v := c.val(s, x.Val)
+			if v.ptr != nil || v.fn != nil || v.iface || v.boxed || v.comps != nil || v.backed || v.view != nil || !firstOrder(x.Val.Type()) {
+				fail("storing a value that is not first-order into an opaque library object")
+			}
+			c.t.opaqueOp(p.oname, "set_"+p.ofield, "R → "+c.t.leanType(x.Val.Type())+" → R")
+			c.tmp++
+			name := fmt.Sprintf("%so%d", c.prefix, c.tmp)
+			fmt.Fprintf(&c.out, "%slet %s := (I_%s.set_%s %s %s)\n", ind(d), name, p.oname, p.ofield, c.load(pp), v.expr)
+			c.store(pp, name)
+			return
 		}
 		if pv := c.val(s, x.Val); pv.ptr != nil && !pv.iface && pp.cell.param == -1 && len(pp.path) == 0 {
 			// a local variable holding a pointer (a captured receiver)
@@ -1612,6 +1684,14 @@ func (c *ctx) call(s *state, x *ssa.Call, d int) {
 			callee = v.fn
 		}
 	}
+	if recv := callee.Signature.Recv(); recv != nil {
+		if pt, ok := recv.Type().(*types.Pointer); ok {
+			if on, ok := opaqueOf(pt.Elem()); ok {
+				c.opaqueCall(s, x, callee, on, d)
+				return
+			}
+		}
+	}
 	if ext, ok := externals[callee.String()]; ok {
 		var args []string
 		for _, a := range com.Args {
@@ -1834,6 +1914,86 @@ func (c *ctx) call(s *state, x *ssa.Call, d int) {
 			q = &ptrv{cell: pp.cell, path: append(append([]step{}, pp.path...), step{field: io.field, name: st.Field(io.field).Name(), cidx: -1})}
 		}
 		c.store(q, proj(name, nres+j, k))
+	}
+}
+
+// opaqueCall: a method call on an opaque library object (see opaqueTypes).  The receiver's state goes in and comes back;
+// so does the state of every other abstract object among the arguments (the operation is polymorphic in their types).
+func (c *ctx) opaqueCall(s *state, x *ssa.Call, callee *ssa.Function, on string, d int) {
+	com := x.Common()
+	c.t.leanType(callee.Signature.Recv().Type().(*types.Pointer).Elem())
+	rv := c.val(s, com.Args[0])
+	if rv.ptr == nil || rv.ofield != "" {
+		fail("method call on an opaque library object of unknown origin")
+	}
+	origin := &ptrv{cell: s.cells[rv.ptr.cell.id], path: rv.ptr.path}
+	if origin.cell == nil {
+		fail("opaque library object in consumed memory")
+	}
+	args := []string{c.load(origin)}
+	parts := []string{"R"}
+	var tparams []string
+	var objs []*ptrv
+	for i, a := range com.Args[1:] {
+		av := c.val(s, a)
+		if av.iface && av.ptr != nil && !av.boxed && av.fn == nil {
+			o := &ptrv{cell: s.cells[av.ptr.cell.id], path: av.ptr.path}
+			if o.cell == nil {
+				fail("abstract object in consumed memory")
+			}
+			for _, q := range append([]*ptrv{origin}, objs...) {
+				if q.cell == o.cell && (len(q.path) == 0 || len(o.path) == 0 || q.path[0].name == o.path[0].name) {
+					fail("possibly aliasing objects handed to a library method")
+				}
+			}
+			objs = append(objs, o)
+			args = append(args, c.load(o))
+			tp := fmt.Sprintf("A%d", i)
+			tparams = append(tparams, tp)
+			parts = append(parts, tp)
+			continue
+		}
+		if av.ptr != nil || av.fn != nil || av.comps != nil || av.iface || av.boxed || av.backed || av.view != nil || !firstOrder(a.Type()) {
+			fail("passing a non-first-order value to a library method")
+		}
+		if av.fromParam > 0 {
+			c.info.escapes[av.fromParam-1] = true
+		}
+		args = append(args, av.expr)
+		parts = append(parts, c.t.leanType(a.Type()))
+	}
+	res := callee.Signature.Results()
+	rts := append([]string{"R"}, tparams...)
+	for j := 0; j < res.Len(); j++ {
+		if !firstOrder(res.At(j).Type()) {
+			fail("library method with a result that is not a first-order value")
+		}
+		rts = append(rts, c.t.leanType(res.At(j).Type()))
+	}
+	sig := strings.Join(parts, " → ") + " → " + strings.Join(rts, " × ")
+	if len(tparams) > 0 {
+		sig = "{" + strings.Join(tparams, " ") + " : Type} → " + sig
+	}
+	op := leanIdent(callee.Name())
+	c.t.opaqueOp(on, op, sig)
+	c.tmp++
+	name := fmt.Sprintf("%so%d", c.prefix, c.tmp)
+	fmt.Fprintf(&c.out, "%slet %s := (I_%s.%s %s)\n", ind(d), name, on, op, strings.Join(args, " "))
+	k := len(rts)
+	c.store(origin, proj(name, 0, k))
+	for j, o := range objs {
+		c.store(o, proj(name, 1+j, k))
+	}
+	var comps []sym
+	for j := 0; j < res.Len(); j++ {
+		comps = append(comps, sym{expr: proj(name, 1+len(objs)+j, k), typ: res.At(j).Type()})
+	}
+	switch len(comps) {
+	case 0:
+	case 1:
+		s.env[x] = comps[0]
+	default:
+		s.env[x] = sym{comps: comps, typ: x.Type()}
 	}
 }
 
@@ -2582,6 +2742,15 @@ func (c *ctx) runInstrs(s *state, b *ssa.BasicBlock, start int, onPath map[*ssa.
 	fail("block without terminator")
 }
 
+func sortedStrKeys(m map[string]string) []string {
+	var ks []string
+	for k := range m {
+		ks = append(ks, k)
+	}
+	sort.Strings(ks)
+	return ks
+}
+
 func sortedKeys(m map[string]bool) []string {
 	var r []string
 	for k := range m {
@@ -3050,7 +3219,7 @@ func main() {
 	}
 	prog, _ := ssautil.AllPackages(pkgs, ssa.BuilderMode(0))
 	prog.Build()
-	t := &translator{specs: map[string]*fnInfo{}, ifaces: map[string]*types.Named{}, gdefs: map[*types.Package]string{}, gcalls: map[*types.Package]map[*ssa.Function]bool{}, globals: map[*ssa.Global]*node{}, gdone: map[*ssa.Package]bool{}, prog: prog, structs: map[string]*types.Struct{}, funcs: map[*ssa.Function]*fnInfo{}}
+	t := &translator{specs: map[string]*fnInfo{}, ifaces: map[string]*types.Named{}, gdefs: map[*types.Package]string{}, gcalls: map[*types.Package]map[*ssa.Function]bool{}, globals: map[*ssa.Global]*node{}, gdone: map[*ssa.Package]bool{}, prog: prog, structs: map[string]*types.Struct{}, funcs: map[*ssa.Function]*fnInfo{}, opaqueOps: map[string]map[string]string{}}
 
 	// library functions of the module (no commands, no tests), in a deterministic order
 	var targets []*ssa.Function
@@ -3207,6 +3376,16 @@ func main() {
 			lines = append(lines, fmt.Sprintf("  %s : %s → %s", leanIdent(m.Name()), strings.Join(parts, " → "), res))
 		}
 		fmt.Fprintf(&ib, "/-- Go interface %s: the object behind a value of this type, as far as the translated code can tell -/\nstructure %s_ops (R : Type) where\n%s\n\n", named.String(), name, strings.Join(lines, "\n"))
+	}
+	for _, name := range t.oorder {
+		var lines []string
+		for _, op := range sortedStrKeys(t.opaqueOps[name]) {
+			lines = append(lines, fmt.Sprintf("  %s : %s", op, t.opaqueOps[name][op]))
+		}
+		if len(lines) == 0 {
+			lines = []string{"  unused : Unit"}
+		}
+		fmt.Fprintf(&ib, "/-- library type %s, an opaque object: the operations the translated code performs on it -/\nstructure %s_ops (R : Type) where\n%s\n\n", name, name, strings.Join(lines, "\n"))
 	}
 	// (structs discovered while printing the method signatures)
 	var tb2 strings.Builder
